@@ -95,7 +95,9 @@ def count_gaps(ctx: Check, case: dict) -> None:
         gap += 1
         window = (window + [bool(st["hw"]) or bool(st.get("user"))])[-3:]
         if st.get("report"):
-            b = "1-5" if gap <= 5 else "6-40" if gap <= 40 else "41-120" if gap <= 120 else "121-300"
+            b = "1-5" if gap <= 5 else "6-40" if gap <= 40 else "41-120" if gap <= 120 else "121-300" \
+                if gap <= 300 else "301-1000" if gap <= 1000 else "1001-3000" if gap <= 3000 else "3001+"
+            ctx.extra["longest_gap_driven_ticks"] = max(ctx.extra.get("longest_gap_driven_ticks", 0), gap)
             ctx.count(f"gap:{b}:{st['report']}")
             if gap > 40 and any(window):
                 ctx.count("gap>40:change-in-last-3-ticks")
@@ -198,6 +200,10 @@ def run(ctx: Check) -> int:
     # reports after arbitrary numbers of ticks: gaps of 1..300 ticks with changes in the last ticks of the gap,
     # incremental reports and snapshots after the gap
     more += [tagrep.gen_gap_case(rng) for _ in range(ctx.n(30, 700))]
+    # very long stretches without a report (quick: 1500-3000 ticks, thorough: 600-8000; the engine is ticked
+    # directly on the virtual clock): tags that change for the first time in the last ticks of the stretch
+    more += [tagrep.gen_long_gap_case(rng, *((1500, 3000) if ctx.tier == "quick" else rng.choice([(600, 1500), (1500, 4000), (4000, 8000)])))
+             for _ in range(ctx.n(5, 40))]
     for c in more:
         count_gaps(ctx, c)
     ctx.monitor(more, lambda c: oracle(c, tagrep.run_case(c)), impl_timeout=60, timeout_key="engine-run-timeout")
@@ -210,7 +216,9 @@ def run(ctx: Check) -> int:
                 "value, timed Pause / Hold, 1 in 6 malformed) x 40-tick schedules with register plans, user commands (Pause/Unpause/Hold/Unhold/Stop/Start/Restart) and reports after 1-5 ticks "
                 "(12 % snapshots); plus long-gap runs: 400 ticks of an active run cut into gaps of 1-300 ticks, register "
                 "changes / user commands / the end of a Wait placed in the last 3 ticks of each gap, every gap closed by "
-                "an incremental report or (30 %) a snapshot; non-trivial = a simulation or a block occurs. "
+                "an incremental report or (30 %) a snapshot; and very-long-gap runs (quick 5 runs with a stretch of 1500-3000 "
+                "ticks, thorough 60 runs with 600-8000) in which registers and run state stay constant until the last 3 "
+                "ticks of the stretch (register change, Pause/Hold, end of a Wait -> Mark); non-trivial = a simulation or a block occurs. "
                 f"{n_corpus} corpus cases run first.")
     ctx.exhaustive = False
     ctx.assumptions = ["reports are taken between engine ticks (collect_tag_updates is not interleaved with a tick)",
@@ -222,7 +230,8 @@ def run(ctx: Check) -> int:
 def search(ctx: Check) -> None:
     from harness import tagrep
     rng = ctx.rng
-    pool = corpus_cases() + [tagrep.gen_gap_case(rng) for _ in range(ctx.n(40, 300))] + \
+    pool = corpus_cases() + [tagrep.gen_long_gap_case(rng) for _ in range(ctx.n(6, 30))] + \
+        [tagrep.gen_gap_case(rng) for _ in range(ctx.n(40, 300))] + \
         [tagrep.gen_case(rng, malformed=(i % 5 == 4)) for i in range(ctx.n(150, 1500))]
     for k in range(0, len(pool), 25):
         ctx.monitor(pool[k:k + 25], lambda c: oracle(c, tagrep.run_case(c)), impl_timeout=60,
